@@ -285,3 +285,67 @@ func checkSessionAPIOwnMethods(c *Ctx, r *Report) {
 		r.Check(!promoted, "V2Session."+fn.Name(), fn.Pos(), "declared on V2Session", "V2Session."+fn.Name()+" is promoted from "+via+": called on a session it runs the embedded type's implementation — the command leaves outside the session (session ID 0, unauthenticated, unencrypted) and the caller still gets an answer")
 	}
 }
+
+// checkOptionsUnaltered: what the handshake is run with — password, BMC key, username,
+// privilege level, lookup mode, preferences — is what the caller passed. The library never
+// writes a field of an options value, except to copy one options value into another (the
+// version-agnostic NewSession building V2SessionOpts from SessionOpts): a "normalised",
+// defaulted or state-dependent copy (KG dropped because an earlier capabilities reply said the
+// BMC has none) authenticates against other secrets than the caller's.
+func checkOptionsUnaltered(c *Ctx, r *Report) {
+	r.Rule("options-unaltered", "no library code stores into a field of a SessionOpts/V2SessionOpts value, other than copying it from the caller's options", 1)
+	var optTs []*types.Named
+	for _, n := range []string{"V2SessionOpts", "SessionOpts"} {
+		if t := c.Named("", n); t != nil {
+			optTs = append(optTs, t)
+		}
+	}
+	if len(optTs) == 0 {
+		r.Lost("bmc.V2SessionOpts / bmc.SessionOpts")
+		return
+	}
+	isOpts := func(t types.Type) bool {
+		for _, o := range optTs {
+			if isPtrTo(t, o) {
+				return true
+			}
+		}
+		return false
+	}
+	n := 0
+	for _, fn := range c.LibFuncs() {
+		fn := fn
+		rawInstrs(fn, false, func(in ssa.Instruction) {
+			st, ok := in.(*ssa.Store)
+			if !ok {
+				return
+			}
+			fa, ok := st.Addr.(*ssa.FieldAddr)
+			if !ok || !isOpts(fa.X.Type()) {
+				return
+			}
+			f := structField(fa.X.Type(), fa.Field)
+			if f == nil {
+				return
+			}
+			n++
+			// a copy: the value is a load of an options value (whole embedded struct) or of the
+			// same-named field of one
+			copyOK := false
+			if ld, isLd := stripConv(st.Val).(*ssa.UnOp); isLd && ld.Op == token.MUL {
+				switch x := ld.X.(type) {
+				case *ssa.Parameter:
+					copyOK = isOpts(x.Type())
+				case *ssa.FieldAddr:
+					if sf := structField(x.X.Type(), x.Field); sf != nil && sf.Name() == f.Name() && isOpts(x.X.Type()) {
+						copyOK = true
+					}
+				}
+			}
+			r.Check(copyOK, c.FnName(fn)+"|store to "+f.Name(), st.Pos(), "copied from the caller's options", "the library writes the "+f.Name()+" of an options value ("+exprText(st.Val)+"): the handshake no longer runs with what the caller passed")
+		})
+	}
+	if n == 0 {
+		r.OK("no stores into options values", token.NoPos, "the library only reads options")
+	}
+}
